@@ -2452,7 +2452,11 @@ class Executor(object):
                         check_inv(s3, k + 1, 'preserve')
                         for bt in linv.get('body_trace', []):
                             s3.iter_start_trace = n_trace0
+                            cnt_ = self.__dict__.setdefault('trace_yields', {})
+                            nm_ = '%s.%s' % (tag.split('.')[-1], getattr(bt, '__name__', 'clause'))
+                            cnt_.setdefault(nm_, 0)
                             for oid_, goal_, text_ in bt(self, s3, k):
+                                cnt_[nm_] += 1
                                 self.oblige(s3, goal_, '%s.body.%s' % (tag, oid_), 'trace', where, {'clause': text_})
                         if dec is not None:
                             sp = s3.fork()
